@@ -581,6 +581,11 @@ class LifeHarness:
             w.armed = label
             w.write_fault = OSError(errno.EPIPE, "Broken pipe (armed)")
             return
+        elif label == "wf:rt":
+            # the transport refuses the next write with RuntimeError (uvloop: "the handler is closed"); the library lists it as a write error
+            w.armed = label
+            w.write_fault = RuntimeError("unable to perform operation on <TCPTransport closed=True>; the handler is closed (armed)")
+            return
         elif label == "wf:async":
             w.armed = label
             w.sock.send_error = OSError(errno.EPIPE, "Broken pipe (armed)")
